@@ -5,6 +5,7 @@ import RactorModel.Lemmas.PidRegistryView
 import RactorModel.Lemmas.RegistryConcPid
 import RactorModel.Lemmas.RegistryThreads
 import RactorModel.Lemmas.RegistryWindow
+import RactorModel.Lemmas.RegistryThreadsSim
 
 /-!
 # C10 — a name maps to at most one live actor and is released on exit
@@ -1067,6 +1068,32 @@ theorem window_halves_compose (ops : List Registry.Op) (a n : Nat)
 
 end
 
+
+/-! ### `Reg2` is `Reg3` with one caller per cell -/
+
+/-- every `Reg2` run (any interleaving; the pid monitors dropped) is the `Reg3` run of the same ops issued by
+thread 0 of each cell: same name table, same pid table, same name / remote flag / status word of every cell -/
+theorem reg2_is_reg3_with_one_caller (ops : List Reg2.Op) :
+    (Reg3.ofOps ops).all Reg3.single = true ∧
+    (∀ n, (Reg3.run Reg3.init (Reg3.ofOps ops)).names n = (Reg2.run Reg2.init ops).names n) ∧
+    (∀ a, (Reg3.run Reg3.init (Reg3.ofOps ops)).pids a = (Reg2.run Reg2.init ops).pids a) ∧
+    (∀ a, ((Reg3.run Reg3.init (Reg3.ofOps ops)).cell a).status = ((Reg2.run Reg2.init ops).act a).status ∧
+          ((Reg3.run Reg3.init (Reg3.ofOps ops)).cell a).name = ((Reg2.run Reg2.init ops).act a).name ∧
+          ((Reg3.run Reg3.init (Reg3.ofOps ops)).cell a).remote = ((Reg2.run Reg2.init ops).act a).remote) := by
+  have h := Reg3.Sim.init.run ops
+  exact ⟨Reg3.ofOps_single ops, h.names, h.pids, fun a => ⟨(h.cells a).2.2.1, (h.cells a).1, (h.cells a).2.1⟩⟩
+
+/-- … and `Reg2.Ordered` there is `Reg3.Disc` here: `whereIs_sound_conc` is the one-caller instance of
+`whereIs_sound_threads` (second proof of it, through `Reg3`) -/
+theorem whereIs_sound_conc_via_threads (ops : List Reg2.Op) (hord : Reg2.Ordered Reg2.init ops = true) (n a : Nat)
+    (h : (Reg2.run Reg2.init ops).names n = some a) :
+    Reg3.Disc Reg3.init (Reg3.ofOps ops) = true ∧ ((Reg2.run Reg2.init ops).act a).status ≠ Reg2.stopped := by
+  have hd := Reg3.disc_of_ordered_run Reg3.Sim.init Reg3.TInv.init Reg3.JInv.init Reg3.SInv.init ops hord
+  have hs := Reg3.Sim.init.run ops
+  refine ⟨hd, ?_⟩
+  rw [← (hs.cells a).2.2.1]
+  exact whereIs_sound_threads (Reg3.ofOps ops) hd n a (by rw [Reg3.whereIs, hs.names n]; exact h)
+
 end C10
 
 #print axioms C10.wherePid_sound_conc
@@ -1085,3 +1112,5 @@ end C10
 #print axioms C10.one_caller_own_order_is_enough
 #print axioms C10.stopping_call_sites_match_source
 #print axioms C10.window_halves_compose
+#print axioms C10.reg2_is_reg3_with_one_caller
+#print axioms C10.whereIs_sound_conc_via_threads
